@@ -35,7 +35,7 @@ type Cmd struct {
 	Dir     string
 	Timeout time.Duration
 	// how Stdin reaches the process: "" = a pipe fed at once; "file" = redirected from a regular file (`< file`);
-	// "slow" = a pipe fed in small blocks with pauses (a slow producer)
+	// "slow" = a pipe fed in small blocks with pauses (a slow producer); "fileoff" = a regular file positioned behind a first line
 	StdinMode string
 	// Fifos are named pipes (path -> content) created before the run and fed by a writer; crd gets the path as an argument,
 	// as with process substitution `<(...)`
@@ -70,6 +70,17 @@ func Run(bin string, c Cmd) Result {
 		if f, err := os.CreateTemp("", "crdverif-stdin-*"); err == nil {
 			_, _ = f.Write(c.Stdin)
 			_, _ = f.Seek(0, 0)
+			cmd.Stdin = f
+			defer func() { f.Close(); os.Remove(f.Name()) }()
+		} else {
+			cmd.Stdin = bytes.NewReader(c.Stdin)
+		}
+	case "fileoff": // `{ read line; crd ...; } < file`: standard input is a file whose first line was consumed already
+		if f, err := os.CreateTemp("", "crdverif-stdin-*"); err == nil {
+			prefix := []byte("a first line that somebody else has read: C[1] D[\n")
+			_, _ = f.Write(prefix)
+			_, _ = f.Write(c.Stdin)
+			_, _ = f.Seek(int64(len(prefix)), 0)
 			cmd.Stdin = f
 			defer func() { f.Close(); os.Remove(f.Name()) }()
 		} else {
